@@ -93,6 +93,12 @@ _i["ensures"] = _SET["ensures"][1:]
 _c("__init__",
    params={"self": "Note", "name": "str", "octave": "int", "dynamics": "None", "velocity": "None", "channel": "None"},
    requires=[("a-name-without-octave-suffix", NODASH)],
+   variants=[dict(name="from-int",
+                  params={"self": "Note", "name": "int", "octave": "int", "dynamics": "None", "velocity": "None",
+                          "channel": "None"},
+                  requires=[("non-negative", "name >= 0")], raises={},
+                  ensures=[("pitch-is-the-integer", "pitch(self) == name"), ("valid-name", "is_name(self.name)")],
+                  havoc={"self.name": "str", "self.octave": "int"})],
    properties=["C10"], battery="note_init", **_i)
 
 # ------------------------------------------------------------------ C11: transposition
